@@ -18,7 +18,10 @@
 // HTLC the set of resolutions sent to the switch (equal sets, never settle+fail);
 // per received HTLC the set of final outcomes; resolver reports (as a set); the set
 // of confirmed transactions; nothing published or offered to the sweeper in the
-// uninterrupted run is missing; witness-cache additions; NotifyChannelResolved only
+// uninterrupted run is missing, and whatever is offered (again) has the same content
+// (witness type, lock time, CSV, sign descriptor, required output, budget,
+// deadline); maturity heights of the contract reports; witness-cache additions;
+// queries keyed by an HTLC of the scenario only; NotifyChannelResolved only
 // with an empty unresolved-contract bucket and StateFullyResolved on disk; no
 // contract's persisted stage ever goes backwards; no call that lnd's pending-close
 // arbitrator could not make (nil Channel / MarkChannelClosed).
@@ -179,7 +182,7 @@ func c13Summary(o *c13Obs) string {
 
 // canon is the part of an observation that a crash-free rerun must reproduce.
 func (o *c13Obs) canon() string {
-	b, _ := json.Marshal([]any{o.FinalState, o.Closed, o.Msgs, o.Finals, o.Reports, o.ChainTxs, o.Published, o.Offered, o.Anomalies})
+	b, _ := json.Marshal([]any{o.FinalState, o.Closed, o.Msgs, o.Finals, o.Reports, o.ChainTxs, o.Published, o.Offered, o.Anomalies, o.OfferContent, o.Maturity})
 	return string(b)
 }
 
@@ -357,6 +360,56 @@ func c13Judge(scn *c13Scn, ref, got *c13Obs) []c13Viol {
 	if m, _ := c13Diff(noAnchorOffer(ref.Offered), got.Offered); len(m) > 0 {
 		add("sweep-offer-missing", strings.Join(m, ","), fmt.Sprintf("inputs never offered to the sweeper: %v", m))
 	}
+	// Whatever is handed to the sweeper may be handed over again by a resumed
+	// node, but never with different content.
+	field := func(c, name string) string {
+		i := strings.Index(c, name+"=")
+		if i < 0 {
+			return "?"
+		}
+		c = c[i+len(name)+1:]
+		if j := strings.IndexByte(c, ' '); j >= 0 {
+			c = c[:j]
+		}
+		return c
+	}
+	for _, op := range c13Keys(got.OfferContent) {
+		refC, ok := ref.OfferContent[op]
+		if !ok {
+			if !strings.Contains(got.OfferContent[op][0], "Anchor") {
+				add("sweep-offer-unknown-input", op+":"+field(got.OfferContent[op][0], "type"),
+					fmt.Sprintf("input %s offered to the sweeper, never offered in the uninterrupted run: %s", op, got.OfferContent[op][0]))
+			}
+			continue
+		}
+		for _, c := range got.OfferContent[op] {
+			if m, _ := c13Diff([]string{c}, refC); len(m) > 0 {
+				add("sweep-offer-content-differs",
+					fmt.Sprintf("%s:got=%s/locktime=%s/csv=%s:ref=%s/locktime=%s/csv=%s", op, field(c, "type"), field(c, "locktime"), field(c, "csv"),
+						field(refC[0], "type"), field(refC[0], "locktime"), field(refC[0], "csv")),
+					fmt.Sprintf("input %s offered to the sweeper as {%s}, uninterrupted run offers {%s}", op, c, strings.Join(refC, "} or {")))
+			}
+		}
+	}
+	// Maturity heights of the contract reports, in any of their normal forms.
+	for _, key := range c13Keys(got.Maturity) {
+		refV, ok := ref.Maturity[key]
+		if !ok {
+			continue
+		}
+		for _, v := range got.Maturity[key] {
+			match := false
+			for _, rv := range refV {
+				if m, _ := c13Diff(strings.Split(v, ","), strings.Split(rv, ",")); len(m) < len(strings.Split(v, ",")) {
+					match = true
+				}
+			}
+			if !match {
+				add("report-maturity-differs", key+":got="+strings.Split(v, ",")[0]+":ref="+strings.Split(refV[0], ",")[0],
+					fmt.Sprintf("contract report %s shows maturity height %s, uninterrupted run %v", key, v, refV))
+			}
+		}
+	}
 	if m, e := c13Diff(ref.Preimages, got.Preimages); len(m)+len(e) > 0 {
 		add("witness-cache-differs", fmt.Sprintf("missing=%d:extra=%d", len(m), len(e)), "preimages added to the witness cache differ")
 	}
@@ -454,12 +507,24 @@ type c13Planned struct {
 func c13Scenarios(thorough bool) []c13Planned {
 	maxH, pairUpTo, tripleUpTo := 2, 2, 0
 	if thorough {
-		maxH, pairUpTo, tripleUpTo = 3, 3, 2
+		maxH, pairUpTo, tripleUpTo = 3, 3, 1
 	}
 	var out []c13Planned
 	add := func(s c13Scn, nh int) {
 		s.number()
 		d := 1
+		if !thorough && nh == 2 && s.Close != "local" && s.Close != "pending" {
+			// Quick tier: pairs of stops for every scenario with at most one HTLC
+			// and for the two-HTLC scenarios of our own / the pending commitment;
+			// the remaining two-HTLC scenarios get every single stop (the thorough
+			// tier does all pairs).
+			nh = 99
+		}
+		if thorough && len(s.Layout) > 0 && len(s.HTLCs) >= 3 {
+			// Thorough tier: the permuted-slot variants of the three-HTLC scenarios
+			// get every single stop, the identity layout every pair.
+			nh = 99
+		}
 		if !thorough && len(s.Layout) > 0 {
 			// Quick tier: the permuted-slot variants get every single stop only
 			// (what they add shows after one restart); the thorough tier treats
@@ -543,6 +608,44 @@ func c13Scenarios(thorough bool) []c13Planned {
 					v.Name += "/slots=" + strings.Trim(strings.ReplaceAll(fmt.Sprint(perm), " ", ""), "[]")
 					add(v, len(set))
 				}
+			}
+		}
+	}
+	// The other channel types: our own, the remote and the remote pending
+	// commitment confirming; 0-1 HTLC in the quick tier, every subset in the
+	// thorough tier (pairs of stops up to 2 HTLCs, single stops for 3).
+	for _, ct := range []string{"lease-init", "lease-noninit", "taproot", "taproot-final", "legacy"} {
+		for _, set := range c13Subsets(map[bool]int{false: 1, true: 3}[thorough]) {
+			for _, k := range []string{"local", "remote", "pending"} {
+				s, ok := build(k, false, set, false)
+				if !ok {
+					continue
+				}
+				s.Chan = ct
+				s.Name = ct + ":" + s.Name
+				if ct == "legacy" {
+					s.Anchor = false
+				}
+				nh := len(set)
+				if nh == 3 {
+					nh = 99
+				}
+				if thorough && nh < 2 {
+					nh = 2 // no triples here
+				}
+				if !thorough {
+					nh = 99 // quick tier: every single stop
+				}
+				add(s, nh)
+				if len(set) < 2 {
+					continue
+				}
+				rev := c13Perms(len(set), false)[0]
+				v := s
+				v.HTLCs = append([]c13HTLC{}, s.HTLCs...)
+				v.Layout = rev
+				v.Name += "/slots=" + strings.Trim(strings.ReplaceAll(fmt.Sprint(rev), " ", ""), "[]")
+				add(v, nh)
 			}
 		}
 	}
@@ -810,7 +913,7 @@ func TestC13(t *testing.T) {
 		return
 	}
 	thorough := run.Thorough()
-	budget := 140 * time.Second
+	budget := 165 * time.Second
 	if thorough {
 		budget = 25 * time.Minute
 	}
@@ -1156,7 +1259,7 @@ func TestC13(t *testing.T) {
 		"evaluations":         evals,
 		"distinct_nontrivial": len(distinct),
 		"rule": "an evaluation = one execution of the real started ChannelArbitrator + resolvers on the bolt arbitrator log (crashdb-wrapped bbolt) through a whole close scenario, with 0, 1 or 2 stops; " +
-			"scenarios = close type x {foreign close first, we broadcast first} x every subset (up to a size) of a 9-letter HTLC alphabet; stops are enumerated exhaustively: every k in [1,W] (W = committed write transactions of the uninterrupted run, see scenarios.*.W) and, for the scenarios of depth 2 / 3 (scenarios_by_depth), every (k1,k2[,k3]) with k_{i+1} in [1, commits of the resumed run]; " +
+			"scenarios = channel type x close type x {foreign close first, we broadcast first} x every subset (up to a size) of a 9-letter HTLC alphabet x output-slot permutations of the non-confirmed commitments; stops are enumerated exhaustively: every k in [1,W] (W = committed write transactions of the uninterrupted run, see scenarios.*.W) and, for the scenarios of depth 2 / 3 (scenarios_by_depth), every (k1,k2[,k3]) with k_{i+1} in [1, commits of the resumed run]; " +
 			"distinct_nontrivial = distinct (scenario, for each stop: the write it follows, arbitrator state on disk, restart mode open/pending-close, unresolved contracts on disk with their stage) among executions in which at least one restart found the channel not yet fully closed",
 		"samples":                    samples.List(),
 		"exhaustive":                 exhaustive,
@@ -1191,7 +1294,8 @@ func TestC13(t *testing.T) {
 		"a committed kvdb write transaction is atomic and durable (bbolt's contract); the stop instants are exactly the returns of committed write transactions of channel.db (arbitrator log and the channel/switch/witness-cache writes made by the arbitrator's callbacks)",
 		"goroutine interleavings inside one stimulus are those the Go scheduler picks; the enumerated nondeterminism is the stop point, with every handler run to quiescence (synctest.Wait) between two stimuli",
 		"chain backend model: spends are notified in the block that confirms them and re-notified on registration after a restart; the sweeper forgets its inputs on a stop, publishes one deterministic transaction per mature input one block after it is offered, and answers an already-spent input with the spending transaction; the close event is re-delivered after a restart while the channel is not marked closed",
-		"anchor-type channel (zero-fee second-level HTLC transactions through the sweeper); the legacy utxo-nursery path, taproot channels, a configured mempool watcher and exit-hop (invoice) HTLCs are not exercised",
+		"channel types: anchors/zero-fee, script-enforced lease (initiator and non-initiator, thaw height 125), simple taproot, taproot final, legacy tweakless (second-level HTLCs of our own commitment through a modelled, durable utxo nursery); scripts, keys, signatures and control blocks are well-formed placeholders (nothing is script-verified; a success spend must carry the HTLC's real preimage); a configured mempool watcher, exit-hop (invoice) HTLCs and aux/custom channels are not exercised",
+		"output indexes are assigned per commitment (the non-confirmed commitments carry the HTLCs in permuted slots); every dependency is keyed strictly and a query with a key of no HTLC of the scenario is a violation",
 	)
 	if len(brokenNotes) > 0 && evals == 0 {
 		fmt.Printf("INFO harness problems: %v\n", brokenNotes)
